@@ -162,6 +162,9 @@ def run(ctx):
     cases = ic.gen_line_curve(ctx, n)
     sweep(ctx, "certified_line_curve_crossings_found_exactly_once", cases,
           [("Curve.intersect", ic.intersect_args("GEOMETRIC"))], judge_c03)
+    lb = ic.gen_line_curve_boxes(ctx, 1200 if ctx.quick() else 20000)
+    sweep(ctx, "segments_placed_against_the_control_box_speedup", lb, [("Curve.intersect", ic.intersect_args("GEOMETRIC"))], judge_c03, configs=("speedup",))
+    sweep(ctx, "segments_placed_against_the_control_box_pure", lb[: len(lb) // 8], [("Curve.intersect", ic.intersect_args("GEOMETRIC"))], judge_c03, configs=("pure",))
     cc = ic.gen_curve_curve(ctx, 60 if ctx.quick() else 1500)
     sweep(ctx, "certified_curve_curve_crossings_found_exactly_once", cc,
           [("Curve.intersect", ic.intersect_args("GEOMETRIC"))], judge_c03)
